@@ -100,7 +100,11 @@ class C01:
     level_text = ("Seeded random histories (DEFINE/STORE/FLUSH/compaction/restart, swarm of configurations); for each history the "
                   "last working lifetime is re-run once per crash point (every numbered filesystem mutation when few, otherwise "
                   "first/last of every op x path class plus a seeded sample) with process exit at that instant, then restarted and "
-                  "read back: selection, COUNT and REPLAY against a reference model (must/may sets).")
+                  "read back: selection, COUNT and REPLAY against a reference model (must/may sets). Further variants of the same "
+                  "lifetime: exit at the in-memory steps of a flush (gates), a torn WAL append followed by exit, a second crash "
+                  "during the recovery, and errno faults (EIO/ENOSPC/EACCES) on the n-th open/write/fsync/rename/mkdir/unlink of one "
+                  "path class of the flush or compaction output (the operation may fail; data must stay readable and durable). "
+                  "Rejected STOREs (blank context id, missing field) are placed in fixed histories of every batch.")
     level_note = ("Process crashes only (no power loss). Trusted: libc interposition covers all mutating calls; single runtime "
                   "thread; the model's must-set = STOREs answered 200 in a completed, quiesced step.")
     clauses = {"lost", "foreign-row", "duplicate-row", "wrong-value", "id-change", "count-vs-selection",
@@ -371,8 +375,10 @@ class C04(Base):
     level_text = ("Seeded histories in which one focus context's appends are interleaved with other contexts/types and with FLUSH, "
                   "compaction rounds and clean/kill restarts so that it spans compacted, L0, passive and active tiers; every REPLAY "
                   "variant (all types / one type / SINCE / RETURN) is issued at every checkpoint, and for a subset of replays the "
-                  "memtable flow or the segment flow is parked at its start gate so that the other delivers first. The returned "
-                  "sequence of events must equal the model's apply order (order compared, not only membership).")
+                  "memtable flow or the segment flow is parked at its start gate so that the other delivers first. A third of the "
+                  "histories restart with the wall clock behind everything stored; fixed histories drain level 0 completely before "
+                  "such a restart. The returned sequence of events must equal the model's apply order (order compared, not only "
+                  "membership).")
     clauses = {"replay-order", "replay-lost", "replay-duplicate", "replay-foreign", "wrong-value", "frames", "read-error", "panic"}
     budgets = {"quick": {"histories": 120}, "thorough": {"histories": 5000}}
 
@@ -430,7 +436,9 @@ class C05(Base):
                   "and COUNT per type, REPLAY per context) is taken before, between and after rounds and after clean and kill "
                   "restarts and must not change (invariance oracle) nor disagree with the model. The compaction lifetime is re-run "
                   "with a crash at enumerated I/O events (output files, index tmp/fsync/rename, reclaim) and with errno faults on "
-                  "compaction output writes; after restart the previous answers must still hold.")
+                  "compaction output, index replacement and reclaim; after restart the previous answers must still hold. The "
+                  "hand-over is parked at each of its five steps (fixed histories of every batch) while reads are issued and while a "
+                  "STORE+FLUSH publishes a new segment (index read-modify-write race).")
     clauses = {"lost", "duplicate-row", "foreign-row", "wrong-value", "count-vs-selection", "replay-lost", "replay-duplicate",
                "replay-foreign", "layout-variance", "frames", "read-error", "panic", "id-change", "restart-panic"}
     budgets = {"quick": {"histories": 12, "crash_limit": 40}, "thorough": {"histories": 150, "crash_limit": 100000}}
@@ -981,10 +989,10 @@ class C09(Base):
     id = "C09"
     technique = "deterministic simulation: aggregates vs fold over the selection issued in the same frozen state, across shards/tiers; feature-level attribution"
     level_text = ("Seeded event multisets split by the history over shards and over memory / flushed / compacted / recovered tiers; for "
-                  "every aggregate query (COUNT, COUNT f, COUNT UNIQUE, TOTAL, AVG, MIN, MAX; BY 0-2 fields incl. nullable and enum; PER "
+                  "every aggregate query (COUNT, COUNT f, COUNT UNIQUE, TOTAL, AVG, MIN, MAX over int and nullable int; BY 0-2 fields incl. nullable and enum; PER "
                   "hour/day/week/month on the timestamp or a payload datetime; WHERE / FOR; LIMIT) the selection with the same filter is "
                   "issued first in the same state, and the aggregate table must equal the fold of each metric over exactly those rows "
-                  "(and over the model), each selected event in exactly one group, LIMIT only capping the number of groups; tables must "
+                  "(and over the model), each selected event in exactly one group, LIMIT (and OFFSET) only deciding the number of groups; tables must "
                   "be identical at every layout checkpoint of the same history.")
     clauses = {"agg-vs-selection", "agg-vs-model", "agg-duplicate-group", "layout-variance", "frames", "read-error", "panic"}
     budgets = {"quick": {"histories": 120}, "thorough": {"histories": 4000}}
@@ -1065,7 +1073,7 @@ def c10_payload(k, rng):
 class C10(Base):
     id = "C10"
     technique = "deterministic simulation: ORDER BY/LIMIT/OFFSET slices vs model across shards and tiers; sort-key multiset oracle"
-    level_text = ("Seeded data with duplicate and missing sort keys (numeric, string, time, nullable), ascending/descending, n and m "
+    level_text = ("Seeded data with duplicate and missing sort keys (numeric incl. neighbouring integers beyond 2^53, string, time, nullable), ascending/descending, n and m "
                   "from {0,1,..,beyond the result size}, with WHERE/FOR, over >=2 shards, tiers mixed by the history and zone sizes 1-4. "
                   "Returned sort keys must be sorted under the typed order, the multiset of sort keys must equal positions m..m+n of the "
                   "model's order (ties free), LIMIT without ORDER BY must return min(n, matches) distinct matching events, OFFSET without "
